@@ -97,8 +97,9 @@ class State:
             if k not in self.v and payload_vacuous(k, self.v):
                 s.v[k] = b
         for k, a in self.cmp.items():
-            if o.cmp.get(k) == a:
-                s.cmp[k] = a
+            b = o.cmp.get(k)
+            if b is not None and (b[0], b[1], b[3]) == (a[0], a[1], a[3]):
+                s.cmp[k] = (a[0], a[1], join(a[2], b[2]), a[3], join(a[4], b[4]))
         for k, a in self.copy.items():
             if o.copy.get(k) == a:
                 s.copy[k] = a
@@ -115,8 +116,12 @@ class State:
             if a[0] < b[0] or a[1] > b[1]:
                 return False
         for k, b in o.cmp.items():
-            if self.cmp.get(k) != b:
+            a = self.cmp.get(k)
+            if a is None or (b[0], b[1], b[3]) != (a[0], a[1], a[3]):
                 return False
+            for x, y in ((a[2], b[2]), (a[4], b[4])):
+                if y is not None and (x is None or x[0] < y[0] or x[1] > y[1]):
+                    return False
         for k, b in o.copy.items():
             if self.copy.get(k) != b:
                 return False
@@ -268,6 +273,7 @@ class Analyzer:
         self.extern_seen = {}
         self.trip = {}  # (fn, bb of `next` call) -> max trip count of the driven loop
         self.trip_seen = set()
+        self.add_obs = {}  # (fn, bb of an Overflow:Add assert) -> (interval of a, interval of b)
         self.incr = {}  # (fn, bb of push/extend) -> max length increment
         self.agg_obs = {}
         self.len_obs = {}  # (adt, field) -> join of observed lengths at every struct literal (None = unknown somewhere)
@@ -1250,6 +1256,13 @@ class Analyzer:
         proved = civ is not None and civ == (exp, exp)
         if record:
             m = t["msg"]
+            if m["kind"] == "Overflow" and m.get("op") == "Add":
+                a_, b_ = self.op_iv(f, st, m["a"]), self.op_iv(f, st, m["b"])
+                prev = self.add_obs.get((f.path, b))
+                cur = (a_, b_)
+                if prev is not None:
+                    cur = (join(prev[0], a_) if (prev[0] and a_) else None, join(prev[1], b_) if (prev[1] and b_) else None)
+                self.add_obs[(f.path, b)] = cur
             desc = m["kind"] + (":" + m["op"] if "op" in m else "")
             detail = ""
             if not proved:
@@ -1330,6 +1343,19 @@ class Analyzer:
                 self.sites.setdefault((f.path, b), []).append(Site(f.path, b, "call", desc, proved, detail, ctx))
             if effects is None:
                 effects = []
+            # closures handed to iterator adaptors run once per item: analyse them with the item interval
+            for a in t["args"]:
+                ap = core.op_place(a)
+                if ap is None or ap["proj"]:
+                    continue
+                aty = f.locals[ap["local"]]["ty"]
+                if aty.get("k") == "closure" and aty.get("path") in self.F.fns:
+                    g = self.F.fns[aty["path"]]
+                    cargs = [None] * g.arg_count
+                    it = self.sub_of_operand(st, t["args"][0], ("#item",)) if t["args"] else None
+                    if it is not None and g.arg_count >= 2 and ty_range(g.locals[g.arg_count]["ty"]) is not None:
+                        cargs[-1] = it
+                    self.call_local(g.path, cargs)
         else:
             effects = []
         if t["target"] is None:
